@@ -40,7 +40,8 @@ PRIM = ["sphere", "capsule", "box", "ellipsoid", "cylinder"]
 TYPES = list(C.COLLIDER_TYPES)
 MAX_SUPPORT = 1000
 HARD_CAP = 3000
-CALL_TIMEOUT = 15.0          # seconds per native call (after warm-up); normal calls take < 50 ms
+CALL_TIMEOUT = 20.0          # seconds of CPU time per native call; normal calls take < 50 ms (a lazily compiled function: 1-3 s)
+WALL_FACTOR = 15.0           # wall-clock limit = WALL_FACTOR * CALL_TIMEOUT for a call that blocks without using CPU
 MAX_TIMEOUTS_PER_BATCH = 2   # after that the rest of the batch is skipped (reported as `skipped`), keeps the wall time bounded
 
 _UNIT_POLY = np.array([[1, 0, 0], [-1, 0, 0], [0, 0.5, 0], [0, -0.5, 0], [0, 0, 0.75], [0, 0, -0.75]]
@@ -276,15 +277,31 @@ def _child(wfd, scenes, start, skip0, evaluator):
         os._exit(0)
 
 
-def run_batch_guarded(scenes, evaluator, call_timeout=CALL_TIMEOUT):
-    """runs evaluator over the scenes in a forked child with a per-call watchdog.
+_TCK = os.sysconf("SC_CLK_TCK")
+
+
+def _cpu_seconds(pid):
+    """CPU time (user + system) consumed so far by the process, from /proc (None if it is gone)"""
+    try:
+        with open(f"/proc/{pid}/stat") as fh:
+            rest = fh.read().rsplit(")", 1)[1].split()
+        return (int(rest[11]) + int(rest[12])) / _TCK
+    except (OSError, IndexError, ValueError):
+        return None
+
+
+def run_batch_guarded(scenes, evaluator, call_timeout=CALL_TIMEOUT, deadline=None, wall_timeout=None):
+    """runs evaluator over the scenes in a forked child with a per-call watchdog.  The watchdog measures the CPU time the child
+    spends inside ONE call (robust against a loaded machine: a busy hang burns CPU, a slow machine does not), plus a wall-clock
+    limit of WALL_FACTOR * call_timeout for a call that blocks without using CPU.
     Returns (results: {scene index: {entry: result}}, incidents: [(scene index, entry, kind, detail)], skipped scene indices)"""
     results = {i: {} for i in range(len(scenes))}
     incidents = []
     start, skip = 0, set()
     timeouts = 0
+    wall_timeout = WALL_FACTOR * call_timeout if wall_timeout is None else wall_timeout
     while start < len(scenes):
-        if timeouts >= MAX_TIMEOUTS_PER_BATCH:
+        if timeouts >= MAX_TIMEOUTS_PER_BATCH or (deadline is not None and time.time() > deadline):
             return results, incidents, list(range(start, len(scenes)))
         rfd, wfd = os.pipe()
         pid = os.fork()
@@ -295,9 +312,26 @@ def run_batch_guarded(scenes, evaluator, call_timeout=CALL_TIMEOUT):
         rd = _Reader(rfd)
         inflight = None
         done_upto = start
+        cpu0, wall0 = _cpu_seconds(pid) or 0.0, time.time()
+        why = ""
         while True:
-            msg = rd.get(call_timeout)
+            msg = rd.get(0.5)
             tag = msg[0]
+            if tag == "TIMEOUT":                       # nothing new within the slice: look at the clocks
+                now = time.time()
+                if deadline is not None and now > deadline:
+                    tag = "DEADLINE"
+                    break
+                cpu = _cpu_seconds(pid)
+                if cpu is not None and cpu - cpu0 > call_timeout:
+                    why = f"no return after {cpu - cpu0:.0f} s of CPU time in this call"
+                    break
+                if now - wall0 > wall_timeout:
+                    why = f"no return after {now - wall0:.0f} s wall time ({(cpu or cpu0) - cpu0:.0f} s CPU) in this call"
+                    break
+                continue
+            if tag in ("S", "R", "E"):
+                cpu0, wall0 = _cpu_seconds(pid) or cpu0, time.time()
             if tag == "S":
                 inflight = (msg[1], msg[2])
             elif tag == "R":
@@ -310,7 +344,7 @@ def run_batch_guarded(scenes, evaluator, call_timeout=CALL_TIMEOUT):
                 break
             else:
                 break
-        if tag in ("TIMEOUT", "EOF", "X"):
+        if tag != "Q":
             try:
                 os.kill(pid, signal.SIGKILL)
             except OSError:
@@ -322,11 +356,14 @@ def run_batch_guarded(scenes, evaluator, call_timeout=CALL_TIMEOUT):
         os.close(rfd)
         if tag == "Q":
             break
+        if tag == "DEADLINE":                          # out of time: the call in flight is not judged, the rest is `skipped`
+            nxt = inflight[0] if inflight is not None else done_upto
+            return results, incidents, list(range(min(nxt, len(scenes)), len(scenes)))
         # resume after the incident
         if inflight is not None:
             i, nm = inflight
             if tag == "TIMEOUT":
-                incidents.append((i, nm, "terminates", f"no return within {call_timeout:.0f} s (process killed)"))
+                incidents.append((i, nm, "terminates", why + " (process killed; a normal call takes < 0.05 s)"))
                 timeouts += 1
             elif tag == "EOF":
                 sig = os.WTERMSIG(status) if os.WIFSIGNALED(status) else None
@@ -337,7 +374,7 @@ def run_batch_guarded(scenes, evaluator, call_timeout=CALL_TIMEOUT):
             skip = set(results[i].keys()) | {nm}
         else:
             # died between calls (scene construction or harness): skip that scene
-            incidents.append((done_upto, "-", "harness", f"{tag}: {str(msg[1:])[:400]}"))
+            incidents.append((done_upto, "-", "harness", f"{tag}: {why} {str(msg[1:])[:400]}"))
             if tag == "TIMEOUT":
                 timeouts += 1
             start, skip = done_upto + 1, set()
@@ -350,8 +387,10 @@ _WORKER_WARM = False
 
 def _batch_task(task):
     global _WORKER_WARM
-    scenes, evaluator_name, call_timeout = task
+    scenes, evaluator_name, call_timeout, deadline = task
     ev = globals()[evaluator_name]
+    if time.time() > deadline:
+        return {i: {} for i in range(len(scenes))}, [], list(range(len(scenes)))
     if _WARM_SCENES and not _WORKER_WARM:
         # load the jitted code once per pool worker (its forked children inherit it).  These scenes returned in the guarded
         # warm-up child immediately before, so running them unguarded here cannot hang.  The PARENT never runs library code.
@@ -359,21 +398,23 @@ def _batch_task(task):
             for _ in ev(sc, set(), lambda nm: None):
                 pass
         _WORKER_WARM = True
-    return run_batch_guarded(scenes, ev, call_timeout)
+    return run_batch_guarded(scenes, ev, call_timeout, deadline)
 
 
-def guarded_map(scenes, evaluator_name, jobs, call_timeout, global_timeout, batch_size):
-    """pmap over batches of scenes; each pmap worker forks a watchdog-protected child per batch"""
+def guarded_map(scenes, evaluator_name, jobs, call_timeout, budget, batch_size):
+    """pmap over batches of scenes; each pmap worker forks a watchdog-protected child per batch.  `budget` = seconds for this phase:
+    at the deadline every batch abandons the call in flight (not judged) and reports the remaining scenes as skipped"""
     batches = [scenes[i:i + batch_size] for i in range(0, len(scenes), batch_size)]
-    out = C.pmap(_batch_task, [(b, evaluator_name, call_timeout) for b in batches], jobs=jobs, chunksize=1, timeout=global_timeout)
+    deadline = time.time() + max(5.0, budget - 5.0)
+    out = C.pmap(_batch_task, [(b, evaluator_name, call_timeout, deadline) for b in batches], jobs=jobs, chunksize=1, timeout=budget + 90.0)
     return batches, out
 
 
-def warm_up(evaluator_name, scenes, timeout=600.0):
+def warm_up(evaluator_name, scenes, timeout=300.0):
     """compiles the jitted code / fills numba's on-disk cache in a guarded child (a hang there is reported as `terminates`)"""
     global _WARM_SCENES
     t = time.time()
-    res, inc, skipped = run_batch_guarded(scenes, globals()[evaluator_name], call_timeout=timeout)
+    res, inc, skipped = run_batch_guarded(scenes, globals()[evaluator_name], call_timeout=timeout, wall_timeout=3 * timeout)
     ok = not any(k in ("terminates", "harness") for _, _, k, _ in inc) and not skipped
     _WARM_SCENES = scenes if ok else None
     return ok, res, inc, time.time() - t
@@ -681,8 +722,8 @@ def judge(sc, name, res, failures):
 
 def collect(batches, out, failures, stats):
     if out is None:
-        failures.append(dict(contract="harness.global_watchdog", obligation="terminates",
-                             detail="the whole run exceeded the global watchdog (pool terminated); no per-scene attribution", input={}))
+        # the per-batch deadlines make every batch return by itself; the pool watchdog can only fire on an overloaded machine
+        stats["harness_incidents"].append("global pool watchdog fired: nothing of the main phase was evaluated (machine overloaded?)")
         return
     for batch, (results, incidents, skipped) in zip(batches, out):
         stats["skipped"] += len(skipped)
